@@ -23,6 +23,8 @@ ACTORS = {
     'memberA': {'X-Project-Id': PROJ_A, 'X-User-Id': 'user-a', 'X-Roles': 'member'},
     'memberB': {'X-Project-Id': PROJ_B, 'X-User-Id': 'user-b', 'X-Roles': 'member'},
     'adminA': {'X-Project-Id': PROJ_A, 'X-User-Id': 'admin-a', 'X-Roles': 'admin,member'},
+    # roles that merely look like admin: still not an admin
+    'viewerA': {'X-Project-Id': PROJ_A, 'X-User-Id': 'viewer-a', 'X-Roles': 'admin_viewer,member,nonadmin'},
 }
 
 WF_DEF = """---
